@@ -36,7 +36,7 @@ theorem rS1_eq_withInputNode (op : Nat) (key : Int) (σ : State) : PKL.withInput
 
 /-- **the run of one `.right` iteration** -/
 theorem right_run {env : Env} {fuel op : Nat} {key v : Int} {σ σ' : State}
-    (hcut : (σ.perkeys[op]?.getD default).cut = none)
+    (hcut : (σ.perkeys[op]?.getD default).cut = none ∨ (σ.perkeys[op]?.getD default).cut = some .eq)
     (h : (PKL.perKeyStep env fuel op .top (key, .right v)).run.run σ = (.ok (), σ')) :
     ∃ d1 σ2 ev mapped σ4 dep σ5,
       (expertAddDependency env fuel σ.nodes.size (σ.perkeys[op]?.getD default).lhsChange false).run.run (rS1 op key σ)
@@ -56,14 +56,35 @@ theorem right_run {env : Env} {fuel op : Nat} {key v : Int} {σ σ' : State}
       (modExpert e f).run.run S = (.ok (), { S with experts := S.experts.modify e f }) := fun _ _ _ => rfl
   rw [hm] at h
   dsimp only at h
-  rw [hcut] at h
-  dsimp only at h
   have hs1 : ({ PerKey.created (.expert σ.experts.size) .top .eq
         { σ with experts := σ.experts.push { f := 0, pk := some (op, some key) } } with
       experts := (PerKey.created (.expert σ.experts.size) .top .eq
         { σ with experts := σ.experts.push { f := 0, pk := some (op, some key) } }).experts.modify σ.experts.size
           fun r => { r with node := σ.nodes.size } } : State) = rS1 op key σ := rS1_eq_withInputNode op key σ
   rw [hs1] at h
+  /- `cut = some .eq`: the extra `modNode` writes the cutoff the new node already has: the state is unchanged -/
+  have hmn : (modNode σ.nodes.size fun x => { x with cutoff := CutoffK.eq }).run.run (rS1 op key σ) =
+      (.ok (), rS1 op key σ) := by
+    show (Except.ok (), ({ rS1 op key σ with
+      nodes := (rS1 op key σ).nodes.modify σ.nodes.size (fun x => { x with cutoff := CutoffK.eq }) } : State)) = _
+    congr 1
+    simp only [rS1, push_modify_last]
+  have h : (do
+      discard <| expertAddDependency env fuel σ.nodes.size (σ.perkeys[op]?.getD default).lhsChange false
+      tick
+      logEv (.note s!"pk P{(σ.perkeys[op]?.getD default).fam} key {key} node n{σ.nodes.size}")
+      let mapped ← elabTemplateBase (env.perKey (σ.perkeys[op]?.getD default).fam) (.int key) [σ.nodes.size]
+      let dep ← expertAddDependency env fuel (σ.perkeys[op]?.getD default).result mapped true
+      modify fun s => { s with perkeys := s.perkeys.modify op fun p =>
+        { p with prevNodes := (key, (σ.nodes.size, dep)) :: p.prevNodes.filter (·.1 != key) } } : M Unit).run.run
+        (rS1 op key σ) = (.ok (), σ') := by
+    rcases hcut with hcut | hcut
+    · rw [hcut] at h
+      exact h
+    · rw [hcut] at h
+      dsimp only at h
+      rw [Proofs.run_bind, hmn] at h
+      exact h
   obtain ⟨u, σ2, h1, h⟩ := bind_ok_inv h
   unfold Functor.discard at h1
   obtain ⟨d1, h1, -⟩ := QR.map_ok_inv h1
